@@ -1,10 +1,19 @@
 #!/bin/sh
 # Build the verification framework from files on disk only (offline).
-set -e
+# Every ./check run rebuilds what it needs from /repo's working tree anyway; this warms the caches.
 cd "$(dirname "$0")"
 export CARGO_NET_OFFLINE=true
 mkdir -p .build evidence replays
-for t in translator/gen_*.py; do python3 "$t"; done
-(cd lean && lake build Dasp driver)
-(cd harness && cargo build --offline --release && cargo build --offline)
-echo "setup ok"
+for t in translator/gen_*.py; do python3 "$t" || echo "setup: translator $t failed"; done
+fail=0
+(cd lean && lake build Dasp.Machine.Int Dasp.Machine.FP) || fail=1
+for p in props/C*.json; do
+  id=$(basename "$p" .json); lc=$(echo "$id" | tr 'A-Z' 'a-z')
+  (cd lean && lake build "Dasp.Props.$id" 2>&1 | tail -3) || echo "setup: lake build Dasp.Props.$id failed"
+  if grep -q "driver_$lc" lean/lakefile.toml; then (cd lean && lake build "driver_$lc" 2>&1 | tail -1) || echo "setup: driver_$lc failed"; fi
+  if [ -f "harness/src/bin/$lc.rs" ]; then
+    (cd harness && cargo build --offline --release --bin "$lc" 2>&1 | tail -1) || echo "setup: harness $lc (release) failed"
+  fi
+done
+[ $fail = 0 ] && echo "setup ok"
+exit $fail
